@@ -1,5 +1,5 @@
 """C05 — every file written is a well-formed EMD 1.0 file."""
-from harness import common, gen, hist, alpha
+from harness import common, gen, hist, alpha, customs
 from harness.props import c09, c10
 
 PID = "C05"
@@ -8,7 +8,9 @@ RULE = ("histories of 1-5 saves into one file over all modes (write, overwrite, 
         "set_author/set_program settings; after every successful save the file is validated by an independent h5py-only "
         "validator (header incl. session author/program, tagged roots, tagged typed nodes, Array data/units/one dim per axis "
         "of length 2 or extent, tagged typed metadata bundles, nothing untagged, no scratch groups) and by the Lean validFile, "
-        "and the package's own detector / version query are observed; non-trivial = >= 2 saves; distinct by recipe hash")
+        "and the package's own detector / version query are observed; every sixth case is a Custom node with node-valued attributes "
+        "of every built-in class, of subclasses of them and nested Custom nodes, saved / appended-over and validated by both "
+        "validators (the Lean one on the raw walk of the real file); non-trivial = >= 2 saves; distinct by recipe hash")
 
 
 def node_names(rec, out):
@@ -21,6 +23,10 @@ def cases(tier, seed):
     n = 100 if tier == "quick" else 1500
     for i in range(n):
         r = common.case_rng(seed, PID, i)
+        if i % 6 == 4:
+            # a Custom node with node-valued attributes of every class (built-in, subclasses, nested Custom)
+            yield customs.gen_case(r)
+            continue
         F, R = c09.gen_pair(r)
         T1 = gen.gen_tree(r, rootname="R1", maxdepth=2, md=0.5, classes=["Array", "Array", "Node", "PointList", "PointListArray"])
         X = gen.gen_tree(r, rootname="X0", maxdepth=2, odd=0.05)
@@ -69,6 +75,10 @@ def cases(tier, seed):
 
 
 def run_both(drv, case):
+    if "custom" in case:
+        iobs, raws = customs.run_impl(case)
+        mobs = customs.run_model(drv, iobs, raws) if drv is not None else None
+        return alpha.canon_obs(iobs), (alpha.canon_obs(mobs) if mobs is not None else None)
     iobs, msteps = hist.run_impl(case)
     hist.LAST["msteps"] = msteps
     mobs = hist.run_model(drv, msteps, len(iobs)) if drv is not None else None
@@ -76,6 +86,11 @@ def run_both(drv, case):
 
 
 def oracle(case, obs):
+    if "custom" in case:
+        for idx, o in enumerate(obs):
+            if o.get("r") == {"ok": True} and o.get("valid") is not True:
+                return {"step": idx, "invalid_file_after_successful_save": o.get("why", o), "mode": o.get("save")}
+        return None
     last_ok = False
     for idx, (st, o) in enumerate(zip(case["steps"], obs)):
         if st["do"] == "save":
@@ -94,10 +109,14 @@ def known_match(case, fail, finding):
 
 
 def nontrivial(case):
+    if "custom" in case:
+        return True
     return sum(1 for s in case["steps"] if s["do"] == "save") >= 2
 
 
 def classify(case, obs):
+    if "custom" in case:
+        return ["custom_node"] + [f"custom_attr_{a['cls']}{'_subclass' if a['sub'] else ''}" for a in case["custom"]["attrs"]]
     out = []
     for s, o in zip(case["steps"], obs):
         if s["do"] == "save":
